@@ -40,7 +40,13 @@ def clear_caches():
     import dep_logic.utils as U
 
     for fn in (M.parse_marker, single._merge_single_markers, U.cnf, U.dnf):
-        fn.cache_clear()
+        if hasattr(fn, "cache_clear"):
+            fn.cache_clear()
+        else:  # memoised some other way: cannot be emptied from outside (C10 then relies on fresh interpreters)
+            UNCLEARABLE.add(getattr(fn, "__name__", repr(fn)))
+
+
+UNCLEARABLE: set = set()
 
 
 def prepare(ctx):
